@@ -13,7 +13,7 @@ META = {
     "technique": "Lean 4 proof (inductive invariant over ghost claim / invoked lists) + replay of real atomic traces + per-index oracle",
 }
 
-THEOREMS = ["C10.invoked_once_in_range", "C10.returns_after_all", "C10.caller_released", "C10.caller_released_witness", "C10.quiescent_returned", "C10.signal_once", "C10.serial_in_order", "C10.serial_narrow_index_repeats"]
+THEOREMS = ["C10.invoked_once_in_range", "C10.returns_after_all", "C10.caller_released", "C10.caller_released_witness", "C10.quiescent_returned", "C10.signal_once", "C10.serial_in_order", "C10.serial_narrow_index_repeats", "C10.participants_bounds", "C10.nested_participants_share"]
 
 
 def run(ctx):
@@ -35,5 +35,19 @@ def run(ctx):
         ctx.broken("transcription of _dispatch_apply_serial (ApplySerial.serialLoop, theorem C10.serial_in_order: `size_t idx = 0; do { callout(idx) } while (++idx < iter);`)",
                    "the loop is no longer there in that form; the 2^32 + 3 run above is the search for a failing input")
     ctx.count("source shape serial loop", 1, 1)
+    # ApplyP's initial state (index 0, todo n) and ApplyCfg.thrCnt / nestedNext transcribe the set-up of dispatch_apply_f; same look-up
+    m = re.search(r"\ndispatch_apply_f\(.*?\n}\n", src, re.S)
+    body = re.sub(r"\s+", " ", re.sub(r"//[^\n]*", "", m.group(0))) if m else ""
+    want = ["if (unlikely(iterations == 0)) { return; }",
+            "if (likely(!nested)) { nested = iterations; } else { thr_cnt = nested < (size_t)thr_cnt ? thr_cnt / (int32_t)nested : 1; "
+            "nested = nested < DISPATCH_APPLY_MAX && iterations < DISPATCH_APPLY_MAX ? nested * iterations : DISPATCH_APPLY_MAX; }",
+            "if (iterations < (size_t)thr_cnt) { thr_cnt = (int32_t)iterations; }",
+            "da->da_index = 0; da->da_todo = iterations; da->da_iterations = iterations; da->da_nested = nested; da->da_thr_cnt = thr_cnt;"]
+    pos = [body.find(w) for w in want]
+    if not (all(p >= 0 for p in pos) and pos == sorted(pos)):
+        ctx.broken("transcription of dispatch_apply_f's set-up (ApplyP initial state index 0 / todo n; ApplyCfg.thrCnt, nestedNext: theorems C10.participants_bounds, "
+                   "C10.nested_participants_share, and the initial state every ApplyP theorem starts from)",
+                   "statement(s) no longer there in that form: " + "; ".join(w[:50] for w, p in zip(want, pos) if p < 0) + "; the tr_apply runs above are the search for a failing input")
+    ctx.count("source shape apply set-up", 1, 1)
     ctx.cov["rule"] = ("tr_apply: three client threads issue applies with n from the boundary set onto AUTO / global / serial / concurrent / concurrent->serial / "
                        "concurrent->concurrent targets, nested up to depth 2, barriers racing on the concurrent queue; distinct_nontrivial = da_index / da_todo transitions explained")
